@@ -243,6 +243,18 @@ PROPS['C15'] = {
 
 
 def c14_witness(pid, fails, repo):
+    if any(('service_type_name' in f.obligation or 'take_three_chars_max' in f.obligation) for f in fails):
+        if not any(f.obligation.endswith(('#service-name-is-a-legal-identifier', '#stem-is-identifier-characters', '#safety')) for f in fails):
+            return {'found': False, 'note': 'a helper clause has no observable of its own'}
+        # the sanitisers (round 11): adversarial names / URIs through the real functions
+        res = k_replay.search_sanitisers(repo)
+        out = {'found': bool(res['mismatches']), 'names_and_uris_run_on_real_code': res['cases']}
+        if res['mismatches']:
+            out['input'] = res['mismatches'][0]
+            out['more'] = res['mismatches'][1:8]
+        if res.get('error'):
+            out['error'] = res['error']
+        return out
     res = k_replay.search(repo)
     out = {'found': bool(res['mismatches']), 'keywords_run_on_real_code': res['cases']}
     if res['mismatches']:
@@ -288,20 +300,26 @@ def c14_witness_all(pid, fails, repo):
 PROPS['C14'] = {
     'units': [UnitK], 'level': 'proof', 'design_ref': 'DESIGN.md 4.14', 'witness': c14_witness_all, 'extra': c14_extra,
     'scope': 'keyword half (proof): field.rs::rename_keywords and as_field_name, for ALL strings, against the edition-2024 strict and '
-             'reserved keyword lists (weak keywords are legal identifiers and may stay); injection half (bounded replay): names, enumeration and facet '
+             'reserved keyword lists (weak keywords are legal identifiers and may stay); sanitisers (proof, round 11): service.rs::service_type_name '
+             'returns a legal identifier for ALL service names, the stem function of doc.rs::make_abbreviated_namespace (take_three_chars_max) returns '
+             'identifier characters only for ALL namespace URIs, rename_keywords maps an identifier to a legal (if necessary raw) identifier; '
+             'injection half (bounded replay): names, enumeration and facet '
              'values, documentation, namespace URIs, addresses, soapAction, operation / part / message / service names',
     'level_text': 'TWO HALVES WITH DIFFERENT ASSURANCE. Injection half: bounded replay only (every position where schema text reaches the output x adversarial '
                   'payload shapes, real generator, independent lexer as oracle) - exploration, not proof. Keyword half: '
                   'deductive proof (Verus/Z3) over the real `match` on string literals: a non-keyword is returned unchanged; a strict or '
                   'reserved keyword is respelled to something that is not a keyword, and the raw form r#k is used only for keywords that may '
-                  'be raw (not self/Self/crate/super); as_field_name never yields a keyword. Exhaustive over the keyword set and total over all other strings.',
+                  'be raw (not self/Self/crate/super); as_field_name never yields a keyword. Exhaustive over the keyword set and total over all other strings. '
+                  'Round 11: two sanitisers of the injection half are PROVED too (service_type_name yields a legal identifier - plain ASCII identifier other than `_` and the keywords, or the raw form of a raw-able one - for every service name; the abbreviation stem is made of identifier characters only, at most three), '
+                  'with str::Chars adapters and format! presented through contract-only stand-ins (listed in extraction_dropped / trusted_base).',
     'level_note': 'Trusted: &str extensionality axiom (equal character sequences are equal strings) and reveal_strlit of the literals; the '
                   'Inflector stand-in (snake case is an uninterpreted total function). The INJECTION half (schema text interpolated into string '
                   'literals / comments / attributes / code through format!, whose output is opaque to Verus) is NOT proved: it gets a BOUNDED replay '
                   '(labelled bounded in the evidence, never counted as proved): 18 positions x 9 adversarial payload shapes through the real generator, '
                   'the output classified by an independent lexer. Type, module, operation and envelope names do not go through rename_keywords and '
                   'are covered by that replay only.',
-    'assumptions': ['keyword lists in contracts/keywords.json transcribe the Rust reference (edition 2024)'],
+    'assumptions': ['keyword lists in contracts/keywords.json transcribe the Rust reference (edition 2024)',
+                    'std: `s.chars().filter(f).collect::<String>()` / `.take(n)` keep only chars satisfying f (at most n); `s.chars().next()` is the first char; `format!("_{x}")` is "_" followed by x; char::is_ascii_alphanumeric / is_ascii_digit are the ASCII ranges (std_prelude.rs stdspec-present-chars, stdspec-char-class)'],
 }
 
 
